@@ -745,6 +745,13 @@ func (c *HttpClient) parseIPCStream(raw *bytes.Reader, expected *arrow.Schema, t
 	}
 	defer reader.Release()
 	if expected != nil && !clientSchemasEqual(reader.Schema(), expected) {
+		// The server's error envelope travels in a stream of its own (empty)
+		// schema, so an exception raised before the first data batch always
+		// arrives under a schema other than the declared one. The exception is
+		// the answer; the schema complaint is only for streams without one.
+		if rpcErr := exceptionInStream(reader); rpcErr != nil {
+			return nil, rpcErr
+		}
 		return nil, &RpcError{Type: "TypeError", Message: fmt.Sprintf("response schema mismatch: expected %s, got %s", expected, reader.Schema())}
 	}
 	parsed := &parsedClientStream{}
@@ -788,6 +795,22 @@ func (c *HttpClient) parseIPCStream(raw *bytes.Reader, expected *arrow.Schema, t
 		return nil, &RpcError{Type: "ProtocolError", Message: fmt.Sprintf("read Arrow IPC response batch: %v", err)}
 	}
 	return parsed, nil
+}
+
+// exceptionInStream scans the remaining batches of reader for an EXCEPTION
+// envelope and returns it as a typed error, or nil when there is none.
+func exceptionInStream(reader *ipc.Reader) *RpcError {
+	for reader.Next() {
+		record := reader.RecordBatch()
+		if record.NumRows() != 0 {
+			continue
+		}
+		metadata := recordMetadata(record)
+		if metadata[MetaLogLevel] == string(LogException) {
+			return rpcErrorFromMetadata(metadata)
+		}
+	}
+	return nil
 }
 
 func clientSchemasEqual(left, right *arrow.Schema) bool {
